@@ -6,6 +6,9 @@
 (* IsSlowDown, IsFinished) inside the loop of core/engine/instance.go:     *)
 (* one action per clock reading / blocking point / decision of the Go code. *)
 (*                                                                         *)
+(*   idle    : instancePool.startInstances: the instance is started when   *)
+(*             its startup token is due, unless the shared schedule has    *)
+(*             finished before (callbackOnFinish cancels the start)        *)
 (*   loop    : waiter.IsFinished  (sched.Left() == 0 -> the instance ends) *)
 (*   next    : Waiter.Wait: sched.Next()   (shared schedule: the token may *)
 (*             have been taken by the other instance -> overdue := 0, back)*)
